@@ -376,8 +376,22 @@ func advAnalyze(c *advCase, ev []vfake.Event) *advFacts {
 			if _, ok := f.initialIx[e.Gen]; !ok && !c.UnicastOnly {
 				f.initialIx[e.Gen] = i
 			}
-			if f.cancelIx >= 0 && e.Dst == vAllNodes.String() && e.Life == 0 && !(c.Lifetime == "0s" || !c.Fwd) {
+			if f.cancelIx >= 0 && e.Dst == vAllNodes.String() && e.Life == 0 && !(c.Lifetime == "0s" || !advFwdAtStop(c)) {
 				f.finalIx = append(f.finalIx, i)
+			}
+		}
+	}
+	// When every RA has lifetime 0 at the stop (configured so, or the interface
+	// is not forwarding) the final RA of a terminating advertiser is the last
+	// multicast transmission begun after the request.
+	if f.cancelIx >= 0 && c.Terminate && !c.UnicastOnly && (c.Lifetime == "0s" || !advFwdAtStop(c)) {
+		for k := len(f.writes) - 1; k >= 0; k-- {
+			if int64(f.writeIx[k]) < f.cancelIx {
+				break
+			}
+			if f.writes[k].Dst == vAllNodes.String() && f.writes[k].Life == 0 {
+				f.finalIx = append(f.finalIx, f.writeIx[k])
+				break
 			}
 		}
 	}
@@ -628,6 +642,17 @@ func advC07(r *vlib.Run, c *advCase, res *advResult) {
 	}
 }
 
+// advFwdAtStop is the forwarding state at the moment of the stop request.
+func advFwdAtStop(c *advCase) bool {
+	fwd := c.Fwd
+	for _, s := range c.Steps {
+		if s.Kind == "fwd" && s.At <= c.StopAt {
+			fwd = s.On
+		}
+	}
+	return fwd
+}
+
 // advCoincident reports whether another scheduler-relevant event (a worker's
 // transmission or another delivered message) carries the same timestamp.
 func advCoincident(ev []vfake.Event, t time.Duration, gen int) bool {
@@ -667,8 +692,30 @@ func advC08(r *vlib.Run, c *advCase, res *advResult) {
 		r.Violation(c.ID, "slow-stop", fmt.Sprintf("Run returned %v after the stop request (budget %v)", d, budget), det())
 		return
 	}
-	if c.Lifetime == "0s" || !c.Fwd {
-		return // every RA has lifetime 0: the final RA cannot be told apart
+	fwdAtStop := advFwdAtStop(c)
+	if c.Lifetime == "0s" || !fwdAtStop {
+		// Every RA has lifetime 0, so the final RA cannot be told apart from one
+		// that was about to be sent anyway; but a terminating advertiser must
+		// still transmit it, last (hosts may hold a default route from an RA sent
+		// while the interface was still forwarding).
+		if c.Terminate && !c.UnicastOnly && f.cancelIx >= 0 {
+			last := -1
+			for k := range f.writes {
+				if int64(f.writeIx[k]) >= f.cancelIx {
+					last = k
+				}
+			}
+			if last < 0 {
+				r.Violation(c.ID, "final-ra-count", "terminating advertiser (interface not forwarding at the stop) transmitted no final RA at all", det())
+				return
+			}
+			if w := f.writes[last]; w.Dst != vAllNodes.String() || w.Life != 0 {
+				r.Violation(c.ID, "final-ra-not-last", fmt.Sprintf("the last packet after the stop request went to %s with lifetime %v", w.Dst, time.Duration(w.Life)), det())
+				return
+			}
+			r.Count("final_ra_seen_last_not_forwarding", 1)
+		}
+		return
 	}
 	var finals, after []int
 	for k, w := range f.writes {
